@@ -732,6 +732,45 @@ pub fn check<S: Src>(s: &mut S) {
     assert!(k1.same(&k2), "debug");
 }
 """, unwind=66)
+    # 16. key expressions whose *value* has wrong-answer inherent methods called like the trait methods (a generated `a.partial_cmp(&b)` / `a.eq(&b)` / `a.hash(..)` on key values would pick them up)
+    add("key-value|inherent-methods-on-the-key-type", "key = .. expressions that evaluate to a type with inherent eq / partial_cmp / cmp / hash methods giving wrong answers",
+        """
+#[derive_ex(PartialEq, Eq, PartialOrd, Ord, Hash)]
+pub struct K1 { #[ord(key = crate::support::Evil($ >> 1))] pub a: u8, pub b: u8 }
+#[derive_ex(PartialEq, PartialOrd)]
+pub enum K2 { A(#[partial_ord(key = crate::support::Evil($ >> 2))] u8), B }
+#[derive_ex(PartialEq, Eq, Hash)]
+pub struct K3 { #[eq(key = crate::support::Evil($ >> 3))] pub a: u8 }
+""", CMP_ORACLE + """
+pub fn check<S: Src>(s: &mut S) {
+    let (a, b, c, d) = (s.u8(), s.u8(), s.u8(), s.u8());
+    let (x, y) = (K1 { a, b }, K1 { a: c, b: d });
+    let e = lex(&[a >> 1, b], &[c >> 1, d]);
+    assert!((x == y) == (e == Ordering::Equal) && x.partial_cmp(&y) == Some(e) && x.cmp(&y) == e, "struct-key-of-hostile-type");
+    let (p, q) = (K2::A(a), if s.bool() { K2::A(c) } else { K2::B });
+    let want = if matches!(q, K2::B) { Ordering::Less } else { (a >> 2).cmp(&(c >> 2)) };
+    assert!(p.partial_cmp(&q) == Some(want) && (p == q) == (want == Ordering::Equal), "enum-key-of-hostile-type");
+    assert!((K3 { a } == K3 { a: c }) == (a >> 3 == c >> 3), "eq-key-of-hostile-type");
+}
+""", unwind=18)
+    # 17. items in scope called like the hidden assertion function of Eq, its nested helper and the helper's parameter
+    add("eq-assertion|items-called-_f-_eq-_this", "user functions called _f and _eq used inside eq(key = ..) expressions, a unit struct called _this in scope (the Eq assertion may not capture them)",
+        """
+#[allow(dead_code)]
+pub struct _this;
+pub fn _f(v: &u8) -> u8 { *v >> 1 }
+pub fn _eq(v: &u8) -> u8 { *v >> 2 }
+#[derive_ex(PartialEq, Eq)]
+pub struct Q1 { #[eq(key = _f(&$))] pub a: u8, #[eq(key = _eq(&$))] pub b: u8, pub c: u8 }
+#[derive_ex(PartialEq, Eq)]
+pub enum Q2 { A(#[eq(key = _eq(&$))] u8, u8), B { x: u8 }, C }
+""", """
+pub fn check<S: Src>(s: &mut S) {
+    let (a, b, c, d, e, f) = (s.u8(), s.u8(), s.u8(), s.u8(), s.u8(), s.u8());
+    assert!((Q1 { a, b, c } == Q1 { a: d, b: e, c: f }) == (a >> 1 == d >> 1 && b >> 2 == e >> 2 && c == f), "struct-eq-with-functions-called-_f-_eq");
+    assert!((Q2::A(a, b) == Q2::A(c, d)) == (a >> 2 == c >> 2 && b == d) && Q2::B { x: a } != Q2::C, "enum-eq-with-functions-called-_eq");
+}
+""", unwind=18)
     # 14. type parameters called like the primitive types the expansion writes in its signatures
     add("params|type-parameters-called-bool-and-usize", "type parameters called bool / usize (the generated signatures say `-> bool` and `-> usize`; the standard derives accept such types)",
         """
